@@ -20,7 +20,7 @@ type qh struct {
 func (s *qh) Ops() []seqmc.Op {
 	ops := []seqmc.Op{{Name: "Dequeue"}, {Name: "Peek"}, {Name: "Len"}}
 	if len(s.model) < s.n {
-		ops = append(ops, seqmc.Op{Name: "Enqueue", A: 1}, seqmc.Op{Name: "Enqueue", A: 2})
+		ops = append(ops, seqmc.Op{Name: "Enqueue", A: 0}, seqmc.Op{Name: "Enqueue", A: 2}) // 0: the zero value is data like any other
 	}
 	return ops
 }
@@ -93,7 +93,7 @@ type sh struct {
 func (s *sh) Ops() []seqmc.Op {
 	ops := []seqmc.Op{{Name: "Pop"}, {Name: "Peek"}}
 	if len(s.model) < s.n {
-		ops = append(ops, seqmc.Op{Name: "Push", A: 1}, seqmc.Op{Name: "Push", A: 2})
+		ops = append(ops, seqmc.Op{Name: "Push", A: 0}, seqmc.Op{Name: "Push", A: 2}) // 0: the zero value is data like any other
 	}
 	return ops
 }
@@ -401,6 +401,6 @@ func main() {
 	r.Set("traces_validated_against_impl", rq.Transitions+rs.Transitions)
 	r.Set("max_depth", max(rq.MaxDepth, rs.MaxDepth))
 	r.Set("size_bound", n)
-	r.Set("rule", "explicit-state BFS to fixpoint from the zero value, values {1,2}, size bound as given; the fingerprint includes the stack's hidden capacity region; after every transition the container is drained and compared element by element with a slice model, then reused; plus fill/drain saw-tooth families up to thousands of elements (capacity-dependent paths), a one-pass fill of one stack and one queue to 2^21+77 (thorough 2^24+77) values with Len/Peek checked after every call and a complete drain, PLUS deterministic families beyond the exhaustive bound (large sizes, every single/double removal from trees built in 7 orders, long one-instance churn histories): see the *_family_* counters")
+	r.Set("rule", "explicit-state BFS to fixpoint from the zero value, values {0,2} (the element type's zero value is data like any other), size bound as given; the fingerprint includes the stack's hidden capacity region; after every transition the container is drained and compared element by element with a slice model, then reused; plus fill/drain saw-tooth families up to thousands of elements (capacity-dependent paths), a one-pass fill of one stack and one queue to 2^21+77 (thorough 2^24+77) values with Len/Peek checked after every call and a complete drain, PLUS deterministic families beyond the exhaustive bound (large sizes, every single/double removal from trees built in 7 orders, long one-instance churn histories): see the *_family_* counters")
 	r.Finish()
 }
